@@ -240,21 +240,26 @@ func concJobs(d *DAG, th bool) []driver.Job {
 	return out
 }
 
-// interleavings applies every merge of the goroutines' op lists to the model and returns the set of final observations.
-func interleavings(m *Model, gs [][]Op, pos []int, out map[string]bool) {
+// interleavings applies every merge of the goroutines' op lists to the model and returns the set of
+// final observations, and of final observations paired with the per-goroutine result classes.
+func interleavings(m *Model, gs [][]Op, pos []int, res [][]string, out, outRes map[string]bool) {
 	done := true
 	for g := range gs {
 		if pos[g] < len(gs[g]) {
 			done = false
 			m2 := m.Clone()
-			m2.Apply(gs[g][pos[g]])
+			r := m2.Apply(gs[g][pos[g]])
 			pos[g]++
-			interleavings(m2, gs, pos, out)
+			res[g] = append(res[g], r)
+			interleavings(m2, gs, pos, res, out, outRes)
+			res[g] = res[g][:len(res[g])-1]
 			pos[g]--
 		}
 	}
 	if done {
-		out[m.Expect(refs)] = true
+		e := m.Expect(refs)
+		out[e] = true
+		outRes[e+"|"+fmt.Sprint(res)] = true
 	}
 }
 
@@ -269,6 +274,7 @@ func concRun(c *driver.Ctx, d *DAG, cc conc) (func(), func(*vs.Result) *driver.F
 		}
 	}
 	var results []string
+	perG := make([][]string, len(cc.gs))
 	body := func() {
 		var wg = make(chan int, len(cc.gs))
 		for gi, ops := range cc.gs {
@@ -276,7 +282,10 @@ func concRun(c *driver.Ctx, d *DAG, cc conc) (func(), func(*vs.Result) *driver.F
 			vs.Go(func() {
 				for _, op := range ops {
 					err := apply(st, ost, d, op)
-					vs.Atomic(func() { results = append(results, fmt.Sprintf("g%d %s=%s", gi, op.Str(d), strip(ErrClass(err)))) })
+					vs.Atomic(func() {
+						results = append(results, fmt.Sprintf("g%d %s=%s", gi, op.Str(d), strip(ErrClass(err))))
+						perG[gi] = append(perG[gi], strip(ErrClass(err)))
+					})
 				}
 				vs.Send(wg, gi)
 			})
@@ -296,8 +305,8 @@ func concRun(c *driver.Ctx, d *DAG, cc conc) (func(), func(*vs.Result) *driver.F
 		if strings.Contains(obs, "WRONG-BYTES") {
 			return &driver.Fail{Sig: cc.kind + ": fetch returned bytes that do not match the descriptor", Detail: obs}
 		}
-		exp := map[string]bool{}
-		interleavings(m, cc.gs, make([]int, len(cc.gs)), exp)
+		exp, expRes := map[string]bool{}, map[string]bool{}
+		interleavings(m, cc.gs, make([]int, len(cc.gs)), make([][]string, len(cc.gs)), exp, expRes)
 		ok := false
 		for e := range exp {
 			if cc.kind == "memory" {
@@ -305,6 +314,21 @@ func concRun(c *driver.Ctx, d *DAG, cc conc) (func(), func(*vs.Result) *driver.F
 			}
 			if e == obs {
 				ok = true
+			}
+		}
+		if ok && cc.kind == "memory" {
+			// The memory store decides a push with one atomic load-or-store, so also the answers
+			// must be those of some sequential order (e.g. the same content is accepted once).
+			// Not demanded of the OCI layout, where two racing identical pushes may both report success.
+			okRes := false
+			for e := range expRes {
+				i := strings.LastIndex(e, "|")
+				if eo := e[:i]; eo[:strings.LastIndex(eo, "tags=")] == obs && e[i+1:] == fmt.Sprint(perG) {
+					okRes = true
+				}
+			}
+			if !okRes {
+				return &driver.Fail{Sig: fmt.Sprintf("memory: the operations' answers match no sequential order (%s)", cc.name), Detail: "results: " + strings.Join(results, ", ") + "\n" + obs}
 			}
 		}
 		c.Outcome(driver.Hash(cc.name, cc.kind, obs, strings.Join(results, ",")))
